@@ -738,7 +738,9 @@ func (p *parser) parseCallExpression(function ast.Expression) ast.Expression {
 		calleeIdent := &ast.Identifier{Value: syntheticName(exp.Function), Synthetic: true}
 		p.nextToken()
 		p.nextToken()
-		parseExp := p.parseExpression(LOWEST)
+		// the rest of the path: members, calls and indexes, but not the
+		// operator that may follow the path (xs[0].N + 1, f().Name == "x")
+		parseExp := p.parseExpression(PREFIX)
 
 		exp.ChainCallee = p.assignCallee(parseExp, calleeIdent)
 		if exp.ChainCallee == nil {
@@ -795,7 +797,9 @@ func (p *parser) parseIndexExpression(left ast.Expression) ast.Expression {
 		calleeIdent := &ast.Identifier{Value: syntheticName(left), Synthetic: true}
 		p.nextToken()
 		p.nextToken()
-		parseExp := p.parseExpression(LOWEST)
+		// the rest of the path: members, calls and indexes, but not the
+		// operator that may follow the path (xs[0].N + 1, f().Name == "x")
+		parseExp := p.parseExpression(PREFIX)
 
 		exp.Callee = p.assignCallee(parseExp, calleeIdent)
 		if exp.Callee == nil {
